@@ -433,7 +433,57 @@ def run_socket_dispatcher(case):
         netmod.SocketConnectionDispatcher = saved_cls
 
 
+def run_session_not_ready(case):
+    """a message handed down while the encryption layers have no key manager (never connected, or the connection is gone): the
+    caller is told (an exception), and the stack works once the connection is there; other stanzas are not held up by it"""
+    from ..kit import protokit as PK
+    from yowsup.layers import YowLayerEvent
+    from yowsup.layers.network.layer import YowNetworkLayer
+    from yowsup.layers.protocol_messages.protocolentities import TextMessageProtocolEntity
+    from yowsup.layers.protocol_media.protocolentities import LocationMediaMessageProtocolEntity
+    from yowsup.layers.protocol_messages.protocolentities.attributes.attributes_message_meta import MessageMetaAttributes
+    out = Outcome()
+    out.info = {"nt": True}
+    to = {"direct": "4915100000022@s.whatsapp.net", "group": "4915100000021-1500000001@g.us"}[case["to"]]
+
+    def entity(k):
+        if case.get("content") == "media":
+            from yowsup.layers.protocol_messages.protocolentities.attributes.attributes_location import LocationAttributes
+            return LocationMediaMessageProtocolEntity(LocationAttributes(1.5 + k, 2.5), MessageMetaAttributes(recipient=to))
+        return TextMessageProtocolEntity(case.get("text", "hello") + str(k), to=to)
+    out.label("session_not_ready:" + case["when"], "to=" + case["to"], "content=" + case.get("content", "text"))
+    rig = PK.ProtoRig([1, 1, 1, 1], True, connected=(case["when"] != "never_connected"))
+    try:
+        if case["when"] == "after_disconnect":
+            rig.bottom.emitEvent(YowLayerEvent(YowNetworkLayer.EVENT_STATE_DISCONNECTED, reason="verif"))
+        for k in range(case.get("n", 1)):
+            before = len(rig.bottom.sent)
+            try:
+                rig.send(entity(k))
+            except Exception:
+                out.label("reported_to_the_caller")
+                continue
+            if len(rig.bottom.sent) == before:
+                out.fail("report", "session_not_ready:%s:message_neither_sent_nor_reported" % case["when"], {"to": to, "nth": k})
+                return out
+            out.label("went_out")
+        rig.bottom.emitEvent(YowLayerEvent(YowNetworkLayer.EVENT_STATE_CONNECTED))
+        before = len(rig.bottom.sent)
+        try:
+            rig.send(entity(99))
+        except Exception as e:
+            out.fail("usable", "session_not_ready:%s:send_after_connect_raises:%s" % (case["when"], type(e).__name__), {"error": repr(e)[:300]})
+            return out
+        if len(rig.bottom.sent) == before:
+            out.fail("usable", "session_not_ready:%s:send_after_connect_without_effect" % case["when"], {"to": to})
+    finally:
+        rig.close()
+    return out
+
+
 def run_case(case):
+    if case.get("sub") == "session_not_ready":
+        return run_session_not_ready(case)
     if case.get("sub") == "socket_dispatcher":
         return run_socket_dispatcher(case)
     if case.get("sub") == "login_race":
@@ -806,7 +856,7 @@ def shrink_candidates(case):
     if case.get("choices"):
         yield dict(case, choices=[])
         yield dict(case, choices=case["choices"][:len(case["choices"]) // 2])
-    if case.get("sub") == "key_fetch_fault":
+    if case.get("sub") in ("key_fetch_fault", "session_not_ready"):
         return
     if case.get("sub") == "socket_dispatcher":
         conns = case["connections"]
@@ -957,6 +1007,9 @@ def plan(tier):
         "shards": 16,
         "enumerations": [("every_site", _enum_sites), ("login_race_basic", _enum_login_race), ("key_fetch_fault_basic", _enum_key_fetch_fault),
                          ("profile_write_fault_sweep", _enum_profile_write_fault),
+                         ("session_not_ready", lambda: iter([{"sub": "session_not_ready", "when": w, "to": t, "content": c, "n": n}
+                                                             for w in ("never_connected", "after_disconnect") for t in ("direct", "group")
+                                                             for c in ("text", "media") for n in (1, 2)])),
                          ("socket_dispatcher_basic", lambda: iter([{"sub": "socket_dispatcher", "tasks": [], "connections": [[None, h, None], [None], [h], [None, None]],
                                                                     "disconnect_after": da}
                                                                    for h in ("ValueError", "KeyError", "handler", "AttributeError", "OSError")
@@ -969,3 +1022,4 @@ def plan(tier):
     }
 
 RULE += (' Also: the real socket dispatcher over scripted sockets (a layer above failing on chosen reads, a disconnect request for a connection that is already gone, reconnects); the profile write failing at the moment the session is established (eager server, complete single-preemption sweep); the application failing on the <success> stanza (the login must still be announced to the layers below).')
+RULE += (" Session not ready in the encryption layers: a text / media message to a contact / a group handed down before the first connection or after the connection went down must raise to the caller (or go out), and sending works after the next connection.")
